@@ -136,6 +136,7 @@ package memfs
 // ---- memfs_internal.go: permission checks and creation formulas (C03) --------------------------
 
 //@ func (*baseNode).checkPermission
+//@   event
 //@   requires[C08] held(bn.mu)
 //@   mode bv
 //@   requires u != nil
